@@ -1568,13 +1568,13 @@ old one cancelled — exactly when the previous sync's context is dead or no bea
 `factor · period`; otherwise the request is ignored. In particular a stuck (stalling) sync is replaced by the first
 request that arrives after that delay, and a finished one by the next request. -/
 theorem c10_run_admission (factor period : Nat) (now : Int) (rs : RunState) (last upTo : Nat) :
-    (upTo > 0 ∧ last ≥ upTo → admit factor period now rs last upTo = (rs, .filled)) ∧
+    (upTo > 0 ∧ last ≥ upTo → admitReq factor period now rs last upTo = (rs, .filled)) ∧
     (¬ (upTo > 0 ∧ last ≥ upTo) → (rs.alive = false ∨ now > rs.lastRoundTime + (period * factor : Nat)) →
-        admit factor period now rs last upTo = ({ lastRoundTime := now, alive := true }, .start)) ∧
+        admitReq factor period now rs last upTo = ({ lastRoundTime := now, alive := true }, .start)) ∧
     (¬ (upTo > 0 ∧ last ≥ upTo) → rs.alive = true → now ≤ rs.lastRoundTime + (period * factor : Nat) →
-        admit factor period now rs last upTo = (rs, .ignore)) ∧
-    (¬ (upTo > 0 ∧ last ≥ upTo) → (admit factor period now rs.finished last upTo).2 = .start) := by
-  unfold admit RunState.finished
+        admitReq factor period now rs last upTo = (rs, .ignore)) ∧
+    (¬ (upTo > 0 ∧ last ≥ upTo) → (admitReq factor period now rs.finished last upTo).2 = .start) := by
+  unfold admitReq RunState.finished
   refine ⟨fun h => by rw [if_pos h], fun h1 h2 => by rw [if_neg h1, if_pos h2], fun h1 h2 h3 => ?_,
     fun h1 => by rw [if_neg h1, if_pos (Or.inl rfl)]⟩
   have : ¬ (rs.alive = false ∨ now > rs.lastRoundTime + (period * factor : Nat)) := by
@@ -1688,8 +1688,8 @@ example : (correctPast { cxCfg .participant with rangeCheck := true } "self" (fu
 example : (sync { cxCfg .follow with roundCheck := true } "self" 0 9 false (cxNode false) [cxSkip]).1.st.base.map (·.1) = [0] := by
   decide
 -- c10_run_admission: first request starts (the initial context is alive but lastRoundTime is 0), a second one 1 s later is ignored, one after 2·period starts again
-example : (admit 2 3 1000 ⟨0, true⟩ 5 9).2 = .start ∧ (admit 2 3 1001 ⟨1000, true⟩ 5 9).2 = .ignore ∧
-    (admit 2 3 1007 ⟨1000, true⟩ 5 9).2 = .start ∧ (admit 2 3 1001 ⟨1000, true⟩ 9 9).2 = .filled := by decide
+example : (admitReq 2 3 1000 ⟨0, true⟩ 5 9).2 = .start ∧ (admitReq 2 3 1001 ⟨1000, true⟩ 5 9).2 = .ignore ∧
+    (admitReq 2 3 1007 ⟨1000, true⟩ 5 9).2 = .start ∧ (admitReq 2 3 1001 ⟨1000, true⟩ 9 9).2 = .filled := by decide
 
 end examples
 
